@@ -216,7 +216,14 @@ type sys struct {
 
 func newSys(f *fixture, allSeq bool) hist.Sys { return newSysB(f, allSeq, false) }
 
-func newSysB(f *fixture, allSeq, batch bool) hist.Sys {
+func newSysB(f *fixture, allSeq, batch bool) hist.Sys { return newSysC(f, allSeq, batch, 0) }
+
+// newSysC: ch2Past says how the node came to NOT be subscribed to ch2:
+// 0 it never was; 1 it subscribed and released before the router started;
+// 2 it subscribed and released back to back while the router runs (before the
+// router's next evaluation); 3 it subscribed, the router announced it, it
+// released, the router withdrew it.
+func newSysC(f *fixture, allSeq, batch bool, ch2Past int) hist.Sys {
 	s := &sys{f: f, allSeq: allSeq, batch: batch, fwd: map[string][]string{}}
 	ctx, cancel := context.WithCancel(context.Background())
 	s.cancel = cancel
@@ -228,7 +235,29 @@ func newSysB(f *fixture, allSeq, batch bool) hist.Sys {
 		evid.Fatal("NewFloodSub: %v", err)
 	}
 	s.ps = ps
+	past := func() {
+		old, err := ps.AddSubscription(ctx, f.keys[0].Priv, ch2)
+		if err != nil {
+			evid.Fatal("AddSubscription(ch2): %v", err)
+		}
+		if ch2Past == 3 {
+			time.Sleep(250 * time.Millisecond)
+			synctest.Wait()
+		}
+		old.Release()
+		if ch2Past == 3 {
+			time.Sleep(250 * time.Millisecond)
+			synctest.Wait()
+		}
+	}
+	if ch2Past == 1 {
+		past()
+	}
 	go func() { _ = ps.Execute(ctx) }()
+	if ch2Past >= 2 {
+		synctest.Wait()
+		past()
+	}
 	sub, err := ps.AddSubscription(ctx, f.keys[0].Priv, ch1)
 	if err != nil {
 		evid.Fatal("AddSubscription: %v", err)
@@ -461,6 +490,13 @@ func TestC27(t *testing.T) {
 	resB := hist.BFS(t, &hist.Config{Name: "floodsub-inject/two-entries-per-packet", New: func() hist.Sys { return newSysB(f, true, true) },
 		MaxDepth: depthBatch, Deadline: run.Deadline(), Settle: 250 * time.Millisecond})
 	agg.AddHist(resB)
+	// (4) the node WAS subscribed to ch2 at some point and is not any more
+	for i, name := range []string{"released-before-the-router-started", "subscribed-and-released-within-one-evaluation", "announced-then-withdrawn"} {
+		past := i + 1
+		res := hist.BFS(t, &hist.Config{Name: "floodsub-inject/ch2-" + name, New: func() hist.Sys { return newSysC(f, true, false, past) },
+			MaxDepth: 2, Deadline: run.Deadline(), Settle: 250 * time.Millisecond})
+		agg.AddHist(res)
+	}
 	agg.Finish(false)
 	if run.NViolations() == 0 && (statDelivered.Load() == 0 || statForwarded.Load() == 0 || statRejected.Load() == 0) {
 		evid.Fatal("vacuous: %d handler invocations, %d forwarded publish messages, %d packets the model expects to be dropped", statDelivered.Load(), statForwarded.Load(), statRejected.Load())
